@@ -182,6 +182,7 @@ return None
 ATOMS_SETTER = '''
 if value is None:
     self._atoms = None
+    self._clear_energies_gradient_hessian()
     return
 if self.n_atoms == len(value) and all(a.label == v.label for a, v in zip(self.atoms, value)):
     self.coordinates = np.array([v.coord for v in value])
